@@ -125,19 +125,11 @@ func c09(e *Env) {
 	e.c09FormTask()
 	// ---- R4 no recover
 	ob4 := r.Ob("R4", "library:recover=∅", "no function of the library calls recover() (a failing task's panic or exit cannot be swallowed)")
-	nScanned := 0
-	for _, fn := range p.LibFuncs {
-		nScanned++
-		for _, b := range fn.Blocks {
-			for _, in := range b.Instrs {
-				if c, ok := in.(ssa.CallInstruction); ok {
-					if bi, ok := c.Common().Value.(*ssa.Builtin); ok && bi.Name() == "recover" {
-						ob4.Fail(e.where(in), "recover() in "+core.FuncName(fn))
-					}
-				}
-			}
-		}
+	nScanned := len(p.LibFuncs)
+	for _, in := range findRecover(p.LibFuncs) {
+		ob4.Fail(e.where(in), "recover() in "+core.FuncName(in.Parent()))
 	}
+	e.positiveControls("recover")
 	ob4.OK("-", fmt.Sprintf("%d library functions scanned", nScanned))
 	// ---- R5 no port send below Execute
 	ob5 := r.Ob("R5", "Execute:no-port-send", "Task.Execute's call tree sends nothing on a port: outputs reach dependants only through the process, after Done")
